@@ -151,6 +151,21 @@ def _mutate_tx(rng, tx, coinbase):
 
 
 def _gen_checktx(rng, chain=None):
+    if rng.random() < 0.08:
+        # the same outpoint spent twice, once through an immutable and once through a mutable outpoint/input object
+        # (a mutable transaction may hold both kinds): still a double spend
+        tx = _mk_tx(rng)
+        d = _desc_tx(tx, True)
+        vin = d['args'][0]['__list__']
+        k = rng.randrange(len(vin))
+        h, n = vin[k]['args'][0]['args']
+        twin = {'__obj__': 'bitcoin.core:CTxIn', 'args': [{'__obj__': 'bitcoin.core:COutPoint', 'args': [h, n]},
+                                                         _bytes_desc(b'\x51', 'bitcoin.core.script:CScript'), 5]}
+        if rng.random() < 0.5:
+            vin.append(twin)
+        else:
+            vin.insert(rng.randrange(len(vin) + 1), twin)
+        return {'tx': d, 'kind': 'dup_mixed_classes'}
     cb = rng.random() < 0.3
     tx, kind = _mutate_tx(rng, _mk_tx(rng, coinbase=cb, witness=rng.random() < 0.3), cb)
     return {'tx': _desc_tx(tx, rng.random() < 0.3), 'kind': kind}
